@@ -642,7 +642,8 @@ impl Analyzable for StructConstructor {
             Some(symbol) => {
                 bail_report!(Error::invalid_symbol("struct type", symbol, &self.r#type));
             }
-            _ => unreachable!(),
+            // the type name did not resolve: that is already reported above
+            None => return r#type,
         };
 
         for case in type_def.cases.iter() {
